@@ -53,7 +53,9 @@ class Check:
     def floor(self, what: str, count: int, minimum: int):
         self.analysed[what] = count
         if count < minimum:
-            raise AnalysisError(f"instance floor: {what} = {count} < {minimum} (anchor renamed or analysis blind)")
+            # fewer instances than were confirmed by hand: the rules that quantify over them pass vacuously, so the run cannot end as "held" (exit 2) - unless
+            # some rule does report a violation, which is the better report (a changed tree often shrinks a population BECAUSE it broke what the rule is about)
+            self.undecided_rule(f"instance floor: {what} = {count} < {minimum} (anchor renamed or analysis blind)")
 
     def sample(self, s):
         if len(self.samples) < 12:
